@@ -157,6 +157,33 @@ Proof.
   - destruct (String.eqb a "--config") eqn:Ea; [apply String.eqb_eq in Ea; subst; exfalso; apply Hpre; left; reflexivity|].
     apply IH. intro K. apply Hpre. right. exact K.
 Qed.
+
+(* several --config options, wherever they stand and also directly after one another: the tokens of ALL the
+   files are appended, in the order of the options *)
+Lemma config_tokens_app read pre f rest toks :
+  ~ In "--config" pre -> read f = Some toks ->
+  config_tokens read (pre ++ "--config" :: f :: rest)%list =
+  match config_tokens read rest with OK t => OK (toks ++ t)%list | Error e => Error e end.
+Proof.
+  intros Hpre Hr. induction pre as [|a pre IH]; cbn [app config_tokens].
+  - rewrite String.eqb_refl, Hr. reflexivity.
+  - destruct (String.eqb a "--config") eqn:Ea; [apply String.eqb_eq in Ea; subst; exfalso; apply Hpre; left; reflexivity|].
+    apply IH. intro K. apply Hpre. right. exact K.
+Qed.
+
+Theorem two_configs_back_to_back read pre f1 f2 post t1 t2 :
+  ~ In "--config" pre -> ~ In "--config" post -> read f1 = Some t1 -> read f2 = Some t2 ->
+  config_tokens read (pre ++ "--config" :: f1 :: "--config" :: f2 :: post)%list = OK (t1 ++ t2)%list.
+Proof.
+  intros Hpre Hpost H1 H2. rewrite (config_tokens_app read pre f1 _ t1 Hpre H1).
+  pose proof (config_tokens_app read [] f2 post t2 (fun K => K) H2) as E2. cbn [app] in E2. rewrite E2.
+  assert (E : config_tokens read post = OK []).
+  { clear -Hpost. induction post as [|b post IHp]; [reflexivity|]. cbn [config_tokens].
+    destruct (String.eqb b "--config") eqn:Eb; [apply String.eqb_eq in Eb; subst; exfalso; apply Hpost; left; reflexivity|].
+    apply IHp. intro K. apply Hpost. right. exact K. }
+  rewrite E, app_nil_r. reflexivity.
+Qed.
+
 Theorem config_without_filename_rejected read pre : ~ In "--config" pre ->
   config_tokens read (pre ++ ["--config"])%list = Error 13%nat.
 Proof.
